@@ -877,6 +877,17 @@ func (fr *sxFrame) stdlib(x *ssa.Call, callee *ssa.Function, args []sxVal) (sxVa
 			l = "strings." + strings.TrimPrefix(l, "bytes.")
 		}
 		return sxStr{sx.TmApp(l, bytesArg(0))}, true
+	case "strings.Map", "bytes.Map":
+		// Map(unicode.ToUpper, s) is how strings.ToUpper maps a string that is not ASCII-only
+		if f, ok := args[0].(sxFunc); ok && f.Fn != nil && len(f.Free) == 0 {
+			switch f.Fn.String() {
+			case "unicode.ToUpper":
+				return sxStr{sx.TmApp("strings.ToUpper", bytesArg(1))}, true
+			case "unicode.ToLower":
+				return sxStr{sx.TmApp("strings.ToLower", bytesArg(1))}, true
+			}
+		}
+		return nil, false
 	case "strings.Clone", "bytes.Clone":
 		t := bytesArg(0)
 		if l := t.Len(); l >= 0 && l <= sxMaxArray && name == "bytes.Clone" && !t.HasTop() {
